@@ -19,7 +19,7 @@ C17Ok(e) ==
     ELSE IF cs.g.t \notin WKTSupported THEN e.wktout = "err"    \* other types are rejected, not mis-encoded
     ELSE /\ e.wktout = "ok"
          /\ LET r == ParseWKT(e.wkttokens) IN r.ok /\ r.v = cs.g
-         /\ e.wktkeep
+         /\ e.wktkeep /\ e.wktshort      \* (every number in the shortest decimal form that reads back as the same float64)
 Ok(e) == e.ev = "text" /\ (IF Focus = "C06" THEN C06Ok(e) ELSE C17Ok(e))
 Apply(e) == UNCHANGED cs
 Reset(e) == cs' = e
